@@ -30,7 +30,30 @@ def c01(cx):
                 what="mutation menu of datagrams at 7 (now, offset) configurations incl. held rotation and start-up catch-up")
 
 
-PLANS = {"C01": c01, "C02": c02}
+def c06(cx):
+    cx.assumptions += ["signatures abstract (ground truth from the harness's signing record)",
+                       "NaN latitude/longitude cannot travel through JSON and are outside the property (finite values only)"]
+    q = cx.tier == QUICK
+    cx.mc("MC_Equip", "MC_Equip.cfg", {"Defects": "{}", "MaxAuths": 3 if q else 4, "MaxReports": 1},
+          timeout=1500,
+          note="3 ids x 2 keys x 2 capacities x 12 signature variants, 12 registration variants, reports, restarts")
+    r = cx.drv_ok("equip", ["--only", "seq"])
+    cx.validate("Trace_Server", "Trace_C06.cfg", r["trace"],
+                what="authorization sequences (all of length <=2, directed, random) with reports and restarts through the JSON endpoint; "
+                     "CheckInvariants and /equipment after every step; finite float classes")
+
+
+def c07(cx):
+    cx.assumptions += ["signatures abstract (ground truth from the harness's signing record)"]
+    q = cx.tier == QUICK
+    cx.mc("MC_Equip", "MC_Equip.cfg", {"Defects": "{}", "MaxAuths": 2 if q else 3, "MaxReports": 1},
+          note="registration attempts by temp/gca/outsider for two candidate keys interleaved with authorizations and restarts")
+    r = cx.drv_ok("equip", ["--only", "reg"])
+    cx.validate("Trace_Server", "Trace_C07.cfg", r["trace"],
+                what="registration attempts (wrong signer, altered key, replay, after restart, concurrent batches) and who is honoured afterwards")
+
+
+PLANS = {"C01": c01, "C02": c02, "C06": c06, "C07": c07}
 
 
 def replay(cx, path):
